@@ -1,6 +1,8 @@
 import Secp.Proofs.History
 import Secp.Proofs.ScalarApiTiesArith
 import Secp.Proofs.ScalarApiTiesTests
+import Secp.Proofs.ElementApiTies
+import Secp.Proofs.ElementApiTiesEq
 /-!
 # C10 — any history of element and scalar operations matches the abstract group model
 
@@ -61,6 +63,15 @@ theorem scalar_steps_tied (s : L4) (t : Option L4) (i : Nat) :
     GenScalarAPI.set s t = Hand.Scalar.set s t ∧ GenScalarAPI.setUInt64 i = Hand.Scalar.setUInt64 i ∧
     GenScalarAPI.isOne s = Hand.Scalar.isOne s :=
   ⟨ScalarApiTies.add_tie s t, ScalarApiTies.subtract_tie s t, ScalarApiTies.multiply_tie s t, rfl, ScalarApiTies.set_tie s t, rfl, rfl⟩
+
+/-- the element steps of the concrete machine are the regenerated methods of `element.go`; `Set`/`Copy` are value copies -/
+theorem element_steps_tied {α : Type} (F : FieldOps α) (e : Pt α) (v : Option (Pt α)) (w : Pt α) :
+    GenElementAPI.add_e_v F e v = Hand.Element.add F e v ∧ GenElementAPI.add_ev F e = Hand.Element.addSelf F e ∧
+    GenElementAPI.double F e = Hand.Element.double F e ∧ GenElementAPI.negate F e = Hand.Element.negate F e ∧
+    GenElementAPI.subtract_e_v F e v = Hand.Element.subtract F e v ∧ GenElementAPI.identity F = Hand.Element.identity F ∧
+    GenElementAPI.set F w = w ∧ GenElementAPI.copy F w = w ∧ GenElementAPI.equal_e_v F e w = Hand.Element.equal F e w ∧
+    GenElementAPI.isIdentity F e = Hand.Element.isIdentity F e :=
+  ⟨ElementApiTies.add_tie F e v, rfl, rfl, rfl, ElementApiTies.subtract_tie F e v, rfl, rfl, rfl, rfl, rfl⟩
 
 /-- non-vacuity: the initial state satisfies the invariant and abstracts to the initial abstract state; all operations
 used by the generators are well-formed -/
